@@ -131,6 +131,12 @@ pub trait Check: Sync {
     fn preflight(&self, _cfg: &Cfg) -> Result<(), String> {
         Ok(())
     }
+    /// After this many worker deaths in one unit the unit is abandoned (the
+    /// deaths are reported as violations; the run is then not exhaustive).
+    /// Checks whose known findings are process deaths keep the high default.
+    fn max_deaths_per_unit(&self, _cfg: &Cfg) -> u32 {
+        5000
+    }
     /// Maximum number of workers (default: all cores)
     fn max_jobs(&self, _cfg: &Cfg) -> usize {
         usize::MAX
@@ -595,6 +601,7 @@ fn run_pool(
     };
     let _ = pool.check;
     let timeout = Duration::from_secs_f64(check.case_timeout_s(cfg));
+    let death_cap = check.max_deaths_per_unit(cfg);
     let start = Instant::now();
     let mut crashes_per_unit: HashMap<usize, u32> = HashMap::new();
     let mut outstanding = 0usize;
@@ -697,14 +704,15 @@ fn run_pool(
                         expected: json!("the worker process survives this case"),
                         observed: json!("worker process died / was killed by the watchdog"),
                     });
-                    if sub != SUB_SETUP && !skip.contains(&sub) && *n < 5000 {
+                    if sub != SUB_SETUP && !skip.contains(&sub) && *n < death_cap {
                         skip.push(sub);
                         if only.is_none() {
                             queue.push_front((unit, skip, only));
                         }
-                    } else if *n >= 5000 {
-                        agg.machinery_errors
-                            .push(format!("unit {unit}: more than 5000 worker deaths"));
+                    } else if *n >= death_cap {
+                        agg.machinery_errors.push(format!(
+                            "unit {unit}: abandoned after {death_cap} worker deaths (each is reported as a violation)"
+                        ));
                     }
                 }
                 if let Err(e) = pool.spawn(idx) {
